@@ -156,7 +156,7 @@ fn eval_substr<'a>(args: &[Option<Value<'a>>]) -> Option<Value<'a>> {
     let start = if pos > 0 {
         (pos - 1) as usize
     } else if pos < 0 {
-        chars.len().saturating_sub((-pos) as usize)
+        chars.len().saturating_sub(pos.unsigned_abs() as usize)
     } else {
         return Some(Value::Text(Cow::Borrowed("")));
     };
@@ -302,8 +302,12 @@ fn eval_concat_ws<'a>(args: &[Option<Value<'a>>]) -> Option<Value<'a>> {
 
 fn eval_lpad<'a>(args: &[Option<Value<'a>>]) -> Option<Value<'a>> {
     let text = get_text(args.first()?)?;
-    let target_len = get_int(args.get(1)?)? as usize;
+    let target_len = get_int(args.get(1)?)?;
     let pad = get_text(args.get(2)?)?;
+    if target_len < 0 {
+        return Some(Value::Null);
+    }
+    let target_len = target_len as usize;
 
     let char_count = text.chars().count();
     if char_count >= target_len {
@@ -329,8 +333,12 @@ fn eval_lpad<'a>(args: &[Option<Value<'a>>]) -> Option<Value<'a>> {
 
 fn eval_rpad<'a>(args: &[Option<Value<'a>>]) -> Option<Value<'a>> {
     let text = get_text(args.first()?)?;
-    let target_len = get_int(args.get(1)?)? as usize;
+    let target_len = get_int(args.get(1)?)?;
     let pad = get_text(args.get(2)?)?;
+    if target_len < 0 {
+        return Some(Value::Null);
+    }
+    let target_len = target_len as usize;
 
     let char_count = text.chars().count();
     if char_count >= target_len {
